@@ -563,7 +563,7 @@ theorem upd_syncStates (g : Graph) (H0 : List Nat) (w : Nat) (gv : Graph) (s : S
 
 /-- `sync_states` emits door requests only -/
 theorem syncStates_events (g : Graph) (s : State) (n v : Nat) (rv : Option (List String)) :
-    ∀ e ∈ (syncStates g s n v rv).2, ∃ act reqs sc, e = .door (g.worker v).id act reqs sc true := by
+    ∀ e ∈ (syncStates g s n v rv).2, ∃ act reqs sc, e = .door (g.worker (g.netOf n v)).id act reqs sc true := by
   unfold syncStates
   dsimp only
   split
@@ -1382,11 +1382,12 @@ theorem setup_ready_iff' (g : Graph) (s : State) (n w : Nat) :
     · have := h (c1, vms) hc hrel
       simpa using this
 
-/-- the only `unset` request `sync_states` can emit: the states queued for removal, by the acting worker -/
+/-- the only `unset` request `sync_states` can emit: the states queued for removal, addressed to the pool of the worker the
+copy was parsed for (`netOf`; the acting worker's own pool when the copy is its own) -/
 theorem syncStates_unset_event (g : Graph) (s : State) (n v : Nat) (rv : Option (List String)) (wid : String)
     (reqs : List (String × String)) (sc : List String) (ok : Bool)
     (h : Event.door wid "unset" reqs sc ok ∈ (syncStates g s n v rv).2) :
-    wid = (g.worker v).id ∧ (syncAcc (g.node n) rv).1 = true ∧ (syncAcc (g.node n) rv).2.1 = "unset" ∧
+    wid = (g.worker (g.netOf n v)).id ∧ (syncAcc (g.node n) rv).1 = true ∧ (syncAcc (g.node n) rv).2.1 = "unset" ∧
       reqs = (syncAcc (g.node n) rv).2.2.1 := by
   unfold syncStates at h
   dsimp only at h
